@@ -185,7 +185,7 @@ func (s *Server) manifestGet(repoStr, arg string) http.HandlerFunc {
 		w.Header().Add("Content-Type", desc.MediaType)
 		w.Header().Add(types.HeaderDockerDigest, desc.Digest.String())
 		// use ServeContent to handle range requests
-		http.ServeContent(w, r, "", time.Time{}, rdr)
+		http.ServeContent(&rangeErrWriter{ResponseWriter: w}, r, "", time.Time{}, rdr)
 	}
 }
 
